@@ -33,6 +33,7 @@ func TestC18(t *testing.T) {
 				sc.Note = "exit:panic"
 			} else {
 				sc.Backend.Fault = genFault(t, responseFaults)
+				sc.Config.MaxMsg = 1 << 20 // a corrupted length prefix must not make the transcoder allocate gigabytes (see C09)
 				sc.Note = "exit:response_fault"
 			}
 		default:
